@@ -585,14 +585,20 @@ def sibling_rule(rep, u, fns):
             rep.violated("R-SIB", fn, "sibling", desc, "no _le sibling")
             continue
         n += 1
-        a = [_norm(key(e), "be") for b in fn.rpo() for e in fn.blocks[b].elems]
-        b_ = [_norm(key(e), "le") for b in sib.rpo() for e in sib.blocks[b].elems]
-        if a == b_:
-            rep.proved("R-SIB", fn, "sibling", desc, "%d statements agree" % len(a))
+        a = core.alpha_keys(fn, lambda k_: _norm(k_, "be"))
+        b_ = core.alpha_keys(sib, lambda k_: _norm(k_, "le"))
+        from collections import Counter
+        ca, cb = Counter(a), Counter(b_)
+        # a codec of the other byte order inside a function of one order
+        foreign = [k_ for k_ in a if "_le_bin" in k_ or "_le(" in k_] + [k_ for k_ in b_ if "_be_bin" in k_ or "_be(" in k_]
+        if foreign:
+            rep.violated("R-SIB", fn, "sibling", desc, "codec of the other byte order is used: %s" % foreign[0][:120])
+        elif ca == cb:
+            rep.proved("R-SIB", fn, "sibling", desc, "%d statements agree (as multisets, variables renamed canonically)" % len(a))
         else:
-            d = next((i for i in range(min(len(a), len(b_))) if a[i] != b_[i]), min(len(a), len(b_)))
-            rep.violated("R-SIB", fn, "sibling", desc, "first difference at statement %d: %s  vs  %s" % (
-                d, a[d] if d < len(a) else "<end>", b_[d] if d < len(b_) else "<end>"))
+            only_a = list((ca - cb).elements())
+            only_b = list((cb - ca).elements())
+            rep.violated("R-SIB", fn, "sibling", desc, "only in _be: %s ; only in _le: %s" % (only_a[:2], only_b[:2]))
     return n
 
 
